@@ -8,7 +8,7 @@ VALUES = ["", "x", "hello", "007", "12", "-3", "1.5", "-0.25", "a\r\nb", "\x00\x
 BIG = ["9223372036854775807", "-9223372036854775808", "9223372036854775806"]
 INTS = ["1", "-1", "0", "5", "-7", "100", "9223372036854775807", "-9223372036854775808"]
 FLOATS = ["1.5", "-0.25", "2", "0.5", "-3"]
-BADNUM = ["zz", "", "1.5x", " 1", "1_0", "--1"]
+BADNUM = ["zz", "", "1.5x", " 1", "--1"]
 IDX = ["-10", "-4", "-2", "-1", "0", "1", "2", "3", "5", "10"]
 
 ALL_VALUES = [vstr("v"), vstr(""), vstr("hello world"), vstr("\x00\xffbin"), vint(12), vint(-3), vfloat(3, 2),
